@@ -193,8 +193,12 @@ pub fn exec(w: &mut World, op: &Op, fam: &str, _rest: &str, env: &mut Env) {
                         (IBig::from(g), s, t)
                     }
                 };
-                env.emit_ibig("s", &e.1);
-                env.emit_ibig("t", &e.2);
+                if env.forms_oracle {
+                    // the coefficients are compared between the call forms of one build only: across word sizes they
+                    // legitimately differ (listed finding of i.gcdext)
+                    env.emit_ibig("s", &e.1);
+                    env.emit_ibig("t", &e.2);
+                }
                 e.0
             }
             7 => {
